@@ -126,7 +126,7 @@ func C02() int {
 	reportBatchAnomalies(c)
 	c.Set("reassigned_leaves_by_class", classSeen)
 	c.Set("flag_sets", flagNames(fsets))
-	c.Set("race_reports", s.RaceReports())
+	raceVerdict(s, c)
 	if c.Counter("line_pairs_compared") < 3000 {
 		c.Inconclusive("too few pairs")
 	}
